@@ -68,6 +68,13 @@ def spec_base(spec):
     return b
 
 
+def spec_xsid(spec):
+    """Two-character xs ID of the library: an explicit ``xsid`` string or an index into SUFFIXES."""
+    if spec.get("xsid"):
+        return spec["xsid"]
+    return SUFFIXES[spec["suffix"] % len(SUFFIXES)]
+
+
 def spec_labels(spec):
     """Nuclide labels the library will hold (deterministic, no armi import needed after the first call)."""
     src = _base(spec["kind"], spec_base(spec))
@@ -77,7 +84,7 @@ def spec_labels(spec):
         i %= n
         if i not in idx:
             idx.append(i)
-    return idx, [src.nuclides[i].nucLabel + SUFFIXES[spec["suffix"] % len(SUFFIXES)] for i in idx]
+    return idx, [src.nuclides[i].nucLabel + spec_xsid(spec) for i in idx]
 
 
 def _copy_meta(dst, src, skip=()):
